@@ -88,6 +88,81 @@ CLAIMS = {
        "FromIterator pushes each item once; the Vec impl reserves (try_reserve of the right amount) before every write and returns Err untouched.",
   note="A1, A2, A3",
   ref="DESIGN.md §4 C18"),
+ "C03": dict(
+  technique="parse-sequence extraction by path-sensitive abstract interpretation with callee contracts, compared with specification tables",
+  text="Grammar-shape clause: every struct / choice parser of both parsers is analysed path by path with its callee parsers replaced by the "
+       "contract 'error, or value plus suffix of the input'; the success path's ordered parsed types, slice chaining and the binding of parsed "
+       "values to result fields must equal a table transcribed from the SML specification (field order, types, optionality, arity, tag "
+       "tables, the vendor time workaround); check_tlf acceptance sets are computed from the real bodies and compared as sets; Value/Status "
+       "try candidates narrowest first and parse with the type they checked; Option<T> is None exactly for 0x01; the list loop runs the "
+       "declared count. Not decided: exactness of integer / byte-string values (C12).",
+  note="A1, A2, A7; the callee contract is re-checked on the real bodies by R-C04-SUFFIX",
+  ref="DESIGN.md §4 C03"),
+ "C04": dict(
+  technique="guard-before-use path rule, CRC/end-marker gates with byte ranges as linear facts, suffix contract via function summaries",
+  text="Structural soundness clauses: every parse_with_tlf call (16 sites) is preceded on its path by a true check_tlf of the same type and "
+       "TLF; both message parsers return data only on paths that establish parsed_crc == swap_bytes(checksum(bytes)) with bytes = [message "
+       "start, checksum field start) proved as linear facts over slice offsets, after the end marker parser (which accepts exactly 0x00); "
+       "leftover input is rejected; envelope must be List(6); every parser function returns a suffix of its input (proved from its summary). "
+       "Not decided: equality with an independent reading of the grammar beyond the shape table of C03.",
+  note="A1, A2 (checksum is an uninterpreted function of the byte range), A7",
+  ref="DESIGN.md §4 C04"),
+ "C07": dict(
+  technique="path-sensitive analysis with a fallible abstract buffer, dominance rules, constant extraction, state-table extraction",
+  text="Structural clauses: encode() returns Err exactly on paths where a buffer write failed (no dropped result) and every write dominates the "
+       "Ok return / lies on every loop cycle (with C18 this is 'out-of-memory exactly when the frame does not fit'); constants written by both "
+       "encoders equal the Transport v1 constants, the escape follows the 4th consecutive 1b, CRC is CRC_16_IBM_SDLC little endian over all "
+       "preceding bytes; pad is (4 - len % 4) % 4 in 0..3, equals the zero count and follows 0x1a; the iterator encoder's transition table "
+       "is extracted from next() for every state value; after the last byte next() returns None without touching state, CRC or inner "
+       "iterator. Not decided: byte-for-byte equality of the two encoders and conformance of the emitted frame for all payloads.",
+  note="A1, A2, A4, A6",
+  ref="DESIGN.md §4 C07"),
+ "C09": dict(
+  technique="sibling cross-check of extracted parse sequences, tag tables, checksum ranges and countdown transitions",
+  text="The two parser implementations are compared on extracted structure: message envelope sequences (complete = streaming start ++ "
+       "[checksum, end marker]), body tag tables, GetListResponse = Start ++ list ++ End, shared field parsers are the same functions, both "
+       "checksum gates cover the same byte range with the same callee chain and compare after both trailer parsers, corresponding rejections "
+       "use the same error variants; the streaming countdown transitions extracted from parse_next realise n+2 / one entry per step / list "
+       "end / trailer, with n the list TLF's length. Equality of produced values is inherited from the shared field parsers.",
+  note="A1, A2, A7",
+  ref="DESIGN.md §4 C09"),
+ "C10": dict(
+  technique="composition (FLOW) rules as value-identity facts on abstract paths with opaque components",
+  text="Composition clauses: SmlReader::{read,next,read_nb,next_nb} call the decoder reader once and pass its result unmodified to parse_from, "
+       "whose result is returned; the six adapters hand the decoded slice to complete::parse / Parser::new / identity without slicing and "
+       "convert errors variant to variant with every payload field (the discarded-byte count survives); the slice source returns inner[idx] "
+       "then idx+1 and Eof iff idx >= len, the iterator source one item per call; constructors wrap the given source untouched. "
+       "Not decided: the end-to-end statement itself (needs C01/C03).",
+  note="A1, A2, A4, A6",
+  ref="DESIGN.md §4 C10"),
+ "C11": dict(
+  technique="effect-free-path and flow rules on abstract paths; classification tables read from switch tables with compiler enum layout",
+  text="Decoder-side obligations of the I/O-fault property: on a would-block source error no call receives the decoder, the count is the "
+       "constant 0 and the error is forwarded; on EOF / other errors reset is called exactly once and its value reported; next() returns "
+       "None exactly for EOF with count 0 and forwards everything else, the nb wrappers likewise; classification tables (io::ErrorKind, "
+       "nb::Error, Eof, is_eof / is_would_block) equal the specified ones; IoByteSource reads via read_exact on a 1-byte buffer. With C14 and "
+       "C17 nothing else is needed on the decoder side. Not decided: behaviour of the caller's io::Read.",
+  note="A1, A2, A4 (std's read_exact retries Interrupted), A6",
+  ref="DESIGN.md §4 C11"),
+ "C12": dict(
+  technique="value-range analysis of the primitive decoders: lossy-operation detection by operand ranges, dead-error rule, exhaustive byte tables by constant propagation",
+  text="TLF lengths: every arithmetic step is value-exact or fails into an error (a truncating shift, wrap or narrowing cast whose operand "
+       "range does not provably fit is reported), each continuation byte updates the length to 16*previous+nibble, every TlfParseError "
+       "variant that exists is reachable (a check that can never fail is a contradiction), the own-size subtraction is one checked "
+       "subtraction for non-list types whose subtrahend equals the consumed TLF bytes; type table and byte decomposition are compared over "
+       "all 256 byte values; integers: exactly len bytes taken, right-aligned copy to [SIZE-len,SIZE), fill 0xff iff signed and first byte "
+       ">= 0x80, from_be_bytes of the same type; bool = byte != 0; octet string = take_n(len); take_* return exactly prefix and rest.",
+  note="A1, A2, A3; integer exactness is decided through the three structural facts, not by evaluating numbers",
+  ref="DESIGN.md §4 C12"),
+ "C15": dict(
+  technique="faithful-driver rules: value-identity facts on abstract paths of the three driving loops plus CFG must-pass-through rules",
+  text="decode, DecodeIterator::next and DecoderReader::read are analysed with the push decoder and the source as opaque components: every "
+       "source byte is pushed unmodified exactly once, Err and Ok(true) are forwarded unmodified (whole buffer), an Err can never reach the "
+       "next iteration unreported, end of input calls finalize / reset exactly once and forwards its report, the iterator is terminal "
+       "afterwards; the decoder uses its buffer only through push / clear / deref; the decoder's mutators are called from these drivers only. "
+       "With C14, C17 and C18 the front-ends report the same sequence of results.",
+  note="A1, A2, A4, A6",
+  ref="DESIGN.md §4 C15"),
 }
 
 NA = {
